@@ -15,17 +15,18 @@ import (
 type File struct {
 	name string
 	// read side
-	data   []byte
-	off    int
-	plan   Plan
-	ci     int // chunk index
-	zeros  int // consecutive zero reads delivered
-	atEOF  bool
-	isDir  bool
-	isPipe bool
+	data     []byte
+	off      int
+	plan     Plan
+	ci       int // chunk index
+	zeros    int // consecutive zero reads delivered
+	atEOF    bool
+	isDir    bool
+	isPipe   bool
+	kind     string // stdin only: pipe|file|chardev
 	errReads int
-	stat   StreamStat
-	closed bool
+	stat     StreamStat
+	closed   bool
 	// write side
 	real *os.File
 	cr   *Created
@@ -53,6 +54,8 @@ func errnoOf(s string) syscall.Errno {
 		return syscall.ENOSPC
 	case "ENOTDIR":
 		return syscall.ENOTDIR
+	case "EXDEV":
+		return syscall.EXDEV
 	}
 	return syscall.EINVAL
 }
@@ -78,6 +81,10 @@ func Stdin() *File {
 		stdinFile = newReadFile("/dev/stdin", nil, Plan{})
 	} else {
 		stdinFile = newReadFile("/dev/stdin", step.Stdin.Data, step.Stdin.Plan)
+		stdinFile.kind = step.Stdin.Kind
+	}
+	if stdinFile.kind == "" {
+		stdinFile.kind = "pipe"
 	}
 	return stdinFile
 }
@@ -348,10 +355,11 @@ func (f *File) Seek(offset int64, whence int) (int64, error) {
 func (f *File) Fd() uintptr { return ^uintptr(0) }
 
 type fileInfo struct {
-	name string
-	size int64
-	dir  bool
-	pipe bool
+	name    string
+	size    int64
+	dir     bool
+	pipe    bool
+	chardev bool
 }
 
 func (i fileInfo) Name() string { return filepath.Base(i.name) }
@@ -362,6 +370,9 @@ func (i fileInfo) Mode() fs.FileMode {
 	}
 	if i.pipe {
 		return fs.ModeNamedPipe | 0o600
+	}
+	if i.chardev {
+		return fs.ModeDevice | fs.ModeCharDevice | 0o666
 	}
 	return 0o644
 }
@@ -376,8 +387,11 @@ func (f *File) Stat() (os.FileInfo, error) {
 	if f.real != nil {
 		return f.real.Stat()
 	}
-	if f.isPipe {
+	if f.isPipe || f.kind == "pipe" {
 		return fileInfo{name: f.name, size: 0, pipe: true}, nil
+	}
+	if f.kind == "chardev" {
+		return fileInfo{name: f.name, size: 0, chardev: true}, nil
 	}
 	return fileInfo{name: f.name, size: int64(len(f.data)), dir: f.isDir}, nil
 }
